@@ -2,6 +2,7 @@ package blockchain
 
 import (
 	"strings"
+	"sync"
 	"time"
 
 	"github.com/virel-project/virel-blockchain/v3/adb"
@@ -22,6 +23,11 @@ type Validator struct {
 
 	postprocessChan chan bool
 
+	// closed by Close. newBlocks and postprocessChan are never closed: packets can still arrive from the
+	// P2P goroutines, and workers can still be validating, while the node shuts down.
+	quit      chan struct{}
+	closeOnce sync.Once
+
 	postprocess    []PostprocessData
 	postprocessMut util.RWMutex
 }
@@ -33,6 +39,7 @@ func (bc *Blockchain) NewValidator(parallelism int) *Validator {
 		newBlocks:       make(chan p2p.Packet, parallelism),
 		postprocess:     make([]PostprocessData, 0, POSTPROCESS_SIZE),
 		postprocessChan: make(chan bool, 10),
+		quit:            make(chan struct{}),
 	}
 
 	v.startProcessingBlocks()
@@ -42,8 +49,7 @@ func (bc *Blockchain) NewValidator(parallelism int) *Validator {
 }
 
 func (v *Validator) Close() {
-	close(v.newBlocks)
-	close(v.postprocessChan)
+	v.closeOnce.Do(func() { close(v.quit) })
 	v.postprocessMut.Lock()
 	v.postprocess = []PostprocessData{}
 	v.postprocessMut.Unlock()
@@ -53,18 +59,30 @@ func (v *Validator) startProcessingBlocks() {
 	for range v.Parallelism {
 		go func() {
 			for {
-				blpacket, ok := <-v.newBlocks
-				if !ok {
+				select {
+				case blpacket := <-v.newBlocks:
+					v.bc.packetBlock(blpacket)
+				case <-v.quit:
 					return
 				}
-				v.bc.packetBlock(blpacket)
 			}
 		}()
 	}
 }
 
 func (v *Validator) ProcessBlock(blpacket p2p.Packet) {
-	v.newBlocks <- blpacket
+	select {
+	case v.newBlocks <- blpacket:
+	case <-v.quit:
+	}
+}
+
+// wakes the postprocessor up (unless the validator is closed)
+func (v *Validator) signalPostprocess() {
+	select {
+	case v.postprocessChan <- true:
+	case <-v.quit:
+	}
 }
 
 type PostprocessData struct {
@@ -87,23 +105,22 @@ func (v *Validator) PostprocessBlock(bl *block.Block, hash util.Hash, txs []*tra
 	v.postprocessMut.Unlock()
 
 	if insta {
-		v.postprocessChan <- true
+		v.signalPostprocess()
 		return
 	}
 
 	if queued >= POSTPROCESS_SIZE {
-		v.postprocessChan <- true
+		v.signalPostprocess()
 	}
 }
 
 func (v *Validator) startPostprocessor() {
 	for {
 		select {
-		case _, ok := <-v.postprocessChan:
-			if !ok {
-				Log.Debug("closing postprocessor")
-				return
-			}
+		case <-v.postprocessChan:
+		case <-v.quit:
+			Log.Debug("closing postprocessor")
+			return
 		case <-time.After(15 * time.Second): // postprocess anyway after 10 seconds of no blocks received
 			Log.Debug("running postprocessor because of timeout")
 		}
